@@ -1,6 +1,7 @@
 mod codes;
 mod hdr;
 mod name;
+mod nametext;
 mod util;
 
 #[global_allocator]
@@ -13,6 +14,7 @@ fn main() {
         "hdr" => hdr::run(&a),
         "codes" => codes::run(&a),
         "name" => name::run(&a),
+        "nametext" => nametext::run(&a),
         t => {
             eprintln!("unknown topic {t}");
             std::process::exit(2);
